@@ -57,7 +57,7 @@ structure Conn where
   ofragLeft : Option Nat := none
   isReset : Bool := false
   isEof : Bool := false
-  peerGot : Bytes := []        -- what the peer has received on this connection, in order
+  peerChunks : List Bytes := [] -- what the peer has received on this connection: accepted chunks, most recent first
   deriving Repr, Inhabited
 
 inductive TEv where
@@ -152,6 +152,21 @@ def readableOf (outLen : Nat) : List Seg → Bytes
   | [] => []
   | s :: rest => if s.needOut ≤ outLen then s.bytes ++ readableOf outLen rest else []
 
+/-- at most `n` of the readable bytes (what a read of size `n` can see); cost O(n + segments touched) -/
+def readablePrefix (outLen : Nat) : Nat → List Seg → Bytes
+  | 0, _ => []
+  | _, [] => []
+  | n + 1, s :: rest =>
+    if s.needOut ≤ outLen then
+      if s.bytes.length ≥ n + 1 then s.bytes.take (n + 1)
+      else s.bytes ++ readablePrefix outLen (n + 1 - s.bytes.length) rest
+    else []
+
+/-- is anything readable now? (empty segments are skipped) -/
+def anyReadable (outLen : Nat) : List Seg → Bool
+  | [] => false
+  | s :: rest => if s.needOut ≤ outLen then (if s.bytes.isEmpty then anyReadable outLen rest else true) else false
+
 /-- remove `k` bytes from the front of the segment list -/
 def dropSegs : Nat → List Seg → List Seg
   | 0, segs => segs
@@ -159,6 +174,9 @@ def dropSegs : Nat → List Seg → List Seg
   | k + 1, s :: rest =>
     if s.bytes.length ≤ k + 1 then dropSegs (k + 1 - s.bytes.length) rest
     else { s with bytes := s.bytes.drop (k + 1) } :: rest
+
+/-- what the peer has received on this connection, in order -/
+def Conn.peerGot (c : Conn) : Bytes := c.peerChunks.reverse.flatten
 
 /-- everything the device will ever send on this connection, gating ignored -/
 def Conn.inboundRest (c : Conn) : Bytes := (c.segs.map (·.bytes)).flatten
@@ -206,10 +224,11 @@ def bulkRead (n : Nat) (tt : Timeout) : M Bytes := fun w =>
         if fl = some 0 then
           (.ok [], { w with cur := some { c with fragLeft := none, frags := frags }, now := w.now + c.dt })
         else
-          let readable := readableOf c.outOff c.segs
-          if readable.isEmpty then waitTimeout tt w
+          if !anyReadable c.outOff c.segs then waitTimeout tt w
           else
-            let k := minOpt (minOpt (min n readable.length) fl) (faultLimit true c.inOff c.faults)
+            let want := minOpt (minOpt n fl) (faultLimit true c.inOff c.faults)
+            let readable := readablePrefix c.outOff want c.segs
+            let k := readable.length
             let fl' := match fl with | none => none | some x => if x - k = 0 then none else some (x - k)
             let c' := { c with segs := dropSegs k c.segs, inOff := c.inOff + k, fragLeft := fl', frags := frags }
             (.ok (readable.take k), { w with cur := some c', now := w.now + c.dt })
@@ -231,7 +250,7 @@ def bulkWrite (data : Bytes) (tt : Timeout) : M (Option Nat) := fun w =>
         if c.writeNone then
           let k := minOpt data.length (faultLimit false c.outOff c.faults)
           -- a None-returning transport cannot report a short write: it takes everything up to a fault
-          (.ok none, { w with cur := some { c with peerGot := c.peerGot ++ data.take k, outOff := c.outOff + k },
+          (.ok none, { w with cur := some { c with peerChunks := data.take k :: c.peerChunks, outOff := c.outOff + k },
                               now := w.now + c.dt })
         else
           let (fl, ofrags) : Option Nat × List Nat :=
@@ -242,7 +261,7 @@ def bulkWrite (data : Bytes) (tt : Timeout) : M (Option Nat) := fun w =>
               | f :: rest => (some (max f 1), rest)
           let k := minOpt (minOpt data.length fl) (faultLimit false c.outOff c.faults)
           let fl' := match fl with | none => none | some x => if x - k = 0 then none else some (x - k)
-          let c' := { c with peerGot := c.peerGot ++ data.take k, outOff := c.outOff + k, ofragLeft := fl', ofrags := ofrags }
+          let c' := { c with peerChunks := data.take k :: c.peerChunks, outOff := c.outOff + k, ofragLeft := fl', ofrags := ofrags }
           (.ok (some k), { w with cur := some c', now := w.now + c.dt })
 
 /-- `transport.close()` -/
